@@ -52,6 +52,66 @@ impl Report {
         })
     }
 }
+impl Report {
+    /// JSON that `from_json` can read back (child processes hand their report to the parent this way)
+    pub fn to_json_full(&self) -> Value { let mut j = self.to_json(); j["nontrivial_hashes"] = json!(self.nontrivial.iter().map(|h| format!("{:x}", h)).collect::<Vec<_>>()); j }
+    pub fn from_json(j: &Value) -> Report {
+        let mut r = Report::default();
+        r.evaluations = j["evaluations"].as_u64().unwrap_or(0);
+        if let Some(a) = j["nontrivial_hashes"].as_array() { for h in a { if let Some(s) = h.as_str() { if let Ok(x) = u64::from_str_radix(s, 16) { r.nontrivial.insert(x); } } } }
+        r.disagreements = j["disagreements"].as_array().cloned().unwrap_or_default();
+        r.failures = j["failures"].as_array().cloned().unwrap_or_default();
+        r.samples = j["samples"].as_array().cloned().unwrap_or_default();
+        if let Some(m) = j["distribution"].as_object() { for (k, v) in m { r.dist.insert(k.clone(), v.as_u64().unwrap_or(0)); } }
+        if let Some(m) = j["failure_class_counts"].as_object() { for (k, v) in m { r.class_counts.insert(k.clone(), v.as_u64().unwrap_or(0)); } }
+        r.exhaustive = j["exhaustive"].as_bool().unwrap_or(false);
+        r
+    }
+}
+
+/// Run cases lo..hi of `prop` in child processes (chunks of `chunk` cases, `n` at a time) so that a crash of the
+/// implementation (segmentation fault, abort, stack overflow) is observed as a failure of one case instead of
+/// taking the whole check down. A crashed chunk is re-run case by case to find the crashing cases.
+pub fn isolated(prop: &str, tier: &str, seed: u64, total: u64, chunk: u64, n: usize) -> Report {
+    use std::sync::atomic::{AtomicU64, Ordering};
+    let exe = std::env::current_exe().expect("current_exe");
+    let dir = std::path::PathBuf::from(std::env::var("YV_TMP").unwrap_or_else(|_| "/verif/.build/tmp".into()));
+    let _ = std::fs::create_dir_all(&dir);
+    let next = AtomicU64::new(0);
+    let run_child = |lo: u64, hi: u64, tag: String| -> Result<Report, String> {
+        let out = dir.join(format!("{}-{}-{}-{}.json", prop, std::process::id(), tag, lo));
+        let _ = std::fs::remove_file(&out);
+        let st = std::process::Command::new(&exe).args([prop, "--tier", tier, "--seed", &seed.to_string(), "--range", &lo.to_string(), &hi.to_string(), "--out", out.to_str().unwrap()])
+            .stdout(std::process::Stdio::null()).stderr(std::process::Stdio::null()).status();
+        let res = match st {
+            Ok(s) if s.success() => std::fs::read_to_string(&out).ok().and_then(|t| serde_json::from_str::<Value>(&t).ok()).map(|j| Report::from_json(&j)).ok_or_else(|| "child wrote no report".to_string()),
+            Ok(s) => { use std::os::unix::process::ExitStatusExt; Err(match s.signal() { Some(sig) => format!("killed by signal {}", sig), None => format!("exit status {:?}", s.code()) }) }
+            Err(e) => Err(format!("spawn failed: {e}")),
+        };
+        let _ = std::fs::remove_file(&out);
+        res
+    };
+    let f = |_w: usize, _nw: usize| -> Report {
+        let mut rep = Report::default();
+        loop {
+            let lo = next.fetch_add(chunk, Ordering::SeqCst);
+            if lo >= total { break; }
+            let hi = (lo + chunk).min(total);
+            match run_child(lo, hi, "chunk".into()) {
+                Ok(r) => rep.merge(r),
+                Err(_) => for c in lo..hi {
+                    match run_child(c, c + 1, "single".into()) {
+                        Ok(r) => rep.merge(r),
+                        Err(e) => { rep.evaluations += 1; rep.fail(json!({"property": prop, "class": "process-crashed", "error": e, "case": {"index": c, "seed": seed, "tier": tier}})); }
+                    }
+                },
+            }
+        }
+        rep
+    };
+    parallel(n, f)
+}
+
 pub fn fnv(b: &[u8]) -> u64 {
     let mut h: u64 = 0xcbf29ce484222325;
     for x in b { h ^= *x as u64; h = h.wrapping_mul(0x100000001b3); }
@@ -79,6 +139,7 @@ pub fn install_panic_hook() {
     std::panic::set_hook(Box::new(|info| {
         let loc = info.location().map(|l| format!("{}:{}", l.file(), l.line())).unwrap_or_default();
         let msg = if let Some(s) = info.payload().downcast_ref::<&str>() { s.to_string() } else if let Some(s) = info.payload().downcast_ref::<String>() { s.clone() } else { "panic".into() };
+        if std::env::var("YV_DEBUG").is_ok() { eprintln!("PANIC {} at {}\n{}", msg, loc, std::backtrace::Backtrace::force_capture()); }
         LAST_PANIC.with(|p| *p.borrow_mut() = format!("{} at {}", msg, loc));
     }));
 }
